@@ -13,7 +13,8 @@ RULE = ("E1: ('dict', entries) = every dictionary with <= n entries (n=3 quick, 
         "chosen so that a merged block would close at exactly 112..120 bytes (with and without a following entry); ('fill', n, filler, sets) = n in {0,1,2,30,49..58} delete-values of one key (or delete-keys) filling the first block, followed by every sequence of <= 3 assignments over keys below / at / above that key x lengths {0,1,20,50,110}; ('big', L, position) = oversize entries incl. 249..254 first/middle/last; ('extra', i) caller-supplied "
         "blocks. Oracle: independent decoder (length-prefixed blocks, one closing 00, no empty block) gives exactly the reference operation "
         "list (all deletions sorted, then all assignments sorted, each once, exact content); every block <= 117 when every entry fits; extra "
-        "blocks follow unchanged; component tags/flag/declared length. Distinct = distinct dictionaries; non-trivial = at least one entry.")
+        "blocks follow unchanged; component tags/flag/declared length. Distinct = distinct dictionaries; non-trivial = at least one entry."
+        " Dictionaries are also built in descending and in every permuted insertion order (up to 4 entries over a reduced universe); ('later', edit, target): the component produced by an earlier call is edited by the caller before the next call on the same / another file.")
 ASSUMPTIONS = [
     "the last value list of a block may be closed by the block end instead of 0xFF (the statement does not require the byte)",
     "entry size = 3 (preface) + 2 + content + 1 (list terminator); it 'fits' when <= 117",
